@@ -26,10 +26,14 @@ clean()
 rc_without, out_without = sh(f"{PY} {demo}", cwd=wt, env=ENV)
 # run the checks on a scratch copy with the patch
 checks = {}
-for p in [prop] + extra_props:
-    rc_c, out_c = sh(f"/verif/tools/try_seed.sh {patch} {p}")
+import concurrent.futures as _cf
+def _one(p):
+    rc_c, out_c = sh(f"VERIF_JOBS=1 /verif/tools/try_seed.sh {patch} {p}")
     viol = [l for l in out_c.splitlines() if l.startswith("VIOLATION") or "ANALYSIS-ERROR" in l]
-    checks[p] = dict(detected=any(l.startswith("VIOLATION") for l in viol), lines=[l for l in out_c.splitlines() if "rule=" in l or "ANALYSIS" in l][:4])
+    return p, dict(detected=any(l.startswith("VIOLATION") for l in viol), lines=[l for l in out_c.splitlines() if "rule=" in l or "ANALYSIS" in l][:4])
+with _cf.ThreadPoolExecutor(10) as _ex:
+    for p, c in _ex.map(_one, [prop] + extra_props):
+        checks[p] = c
 ok = tests_ok and rc_with != 0 and rc_without == 0
 print(f"{name}: tests_pass_with_change={tests_ok} demo_with={rc_with} demo_without={rc_without} confirmed={ok}")
 for p, c in checks.items():
